@@ -58,13 +58,16 @@ HasSeqs(c) == c.k = "full"
 HasPartial(P, v) == \E p \in P : p.v = v
 PartialOf(P, v) == CHOOSE p \in P : p.v = v
 ContainsVersion(v) == v \notin needed /\ max >= v
-Contains(v, hasSeqs, Q) ==
-    /\ ContainsVersion(v)
-    /\ (hasSeqs => (HasPartial(partials, v) => Q \subseteq PartialOf(partials, v).seqs))
-KnownAtStart(c) == \A v \in CVersions(c) : Contains(v, HasSeqs(c), CSeqs(c))
-
 (* PartialVersion::is_complete as coded (full_range starts at FullStart) *)
 PvComplete(p) == Gaps(p.seqs, FullStart, p.last) = {}
+(* BookedVersions::contains: with seqs, a partial must hold them all; without (whole version), a     *)
+(* partially received version only counts once all of its sequences were received (fix S2)           *)
+Contains(v, hasSeqs, Q) ==
+    /\ ContainsVersion(v)
+    /\ (HasPartial(partials, v) =>
+            IF hasSeqs THEN Q \subseteq PartialOf(partials, v).seqs ELSE PvComplete(PartialOf(partials, v)))
+KnownAtStart(c) == \A v \in CVersions(c) : Contains(v, HasSeqs(c), CSeqs(c))
+
 (* the "gaps in 0..=last_seq" test used for the apply trigger and in process_fully_buffered_changes *)
 PvCovered(p) == Gaps(p.seqs, 0, p.last) = {}
 
@@ -120,8 +123,11 @@ StepChange(st, c) ==
     ELSE IF IsComplete(c) /\ IsEmptyCs(c) THEN
         LET hi == IF c.k = "empty" THEN c.hi ELSE c.v
             lo == IF c.k = "empty" THEN c.lo ELSE c.v
-        IN [st EXCEPT !.dbv = IF hi > max THEN Max2(@, hi) ELSE @,   \* process_empty_version (crsql_set_db_version keeps the max)
+            hadMeta == (\E b \in st.bufRows : b[1] \in lo..hi) \/ (\E r \in st.seqRows : r.v \in lo..hi)
+        IN [st EXCEPT !.dbv = IF hi > max \/ hadMeta THEN Max2(@, hi) ELSE @,   \* process_empty_version (crsql_set_db_version keeps the max)
                       !.merged = @ \cup (lo..hi),
+                      \* check_buffered_meta_to_clear over the range: the whole range is scheduled (fix S2)
+                      !.pendClear = IF hadMeta THEN @ \cup (lo..hi) ELSE @,
                       !.seen = [v \in V |-> IF v \in lo..hi THEN [kind |-> "known", seqs |-> {}] ELSE @[v]],
                       !.processed = Append(@, [lo |-> lo, hi |-> hi, p |-> FALSE, seqs |-> {}, last |-> 0])]
     ELSE IF IsComplete(c) THEN                                       \* process_complete_version
@@ -147,7 +153,9 @@ FoldBatch(st, b, i) == IF i > Len(b) THEN st ELSE FoldBatch(StepChange(st, b[i])
 RECURSIVE InsertPartials(_, _, _, _)
 InsertPartials(mem, pr, i, trig) ==
     IF i > Len(pr) THEN [mem |-> mem, trig |-> trig]
-    ELSE IF ~pr[i].p THEN InsertPartials(mem, pr, i + 1, trig)
+    ELSE IF ~pr[i].p
+         THEN \* fully known now: remove_partials(versions) (fix S2)
+              InsertPartials([mem EXCEPT !.partials = {p \in @ : p.v \notin pr[i].lo..pr[i].hi}], pr, i + 1, trig)
     ELSE LET v == pr[i].lo
              got == IF HasPartial(mem.partials, v)
                     THEN [PartialOf(mem.partials, v) EXCEPT !.seqs = @ \cup pr[i].seqs]
@@ -228,7 +236,9 @@ Restart ==
     /\ max' = m.max /\ needed' = m.needed /\ partials' = m.partials
     /\ pendApply' = {p.v : p \in {q \in m.partials : PvCovered(q)}}
     /\ pendClear' = {}
-    /\ UNCHANGED <<gapRows, seqRows, bufRows, dbv, merged, err>>
+    \* "recorded as cleared" is only durable up to the rebuilt head (see C02_ReloadEq)
+    /\ merged' = {v \in merged : v <= m.max}
+    /\ UNCHANGED <<gapRows, seqRows, bufRows, dbv, err>>
 
 Batches == UNION {[1..n -> Chunks] : n \in 1..MaxBatch}
 
@@ -259,9 +269,11 @@ FullyBuffered == {v \in {r.v : r \in seqRows} : Gaps(RowSeqs(v), 0, RowLast(v)) 
 Merged == merged
 DurablyHeld == Merged \cup FullyBuffered
 
-(* Known finding S2: a version already recorded as applied/cleared by a committed complete or empty   *)
-(* changeset keeps its partial record (in memory and/or as seq + buffered rows).                      *)
-StaleV == IF KF_S2 THEN {v \in Merged : HasPartial(partials, v) \/ (\E r \in seqRows : r.v = v)} ELSE {}
+(* Known finding S2r (what is left of S2 after its fix): the seq/buffered rows of a version that a     *)
+(* committed complete or empty changeset recorded as applied/cleared are only deleted by the          *)
+(* asynchronous clear_buffered_meta round; until then (and for good if the process dies before it)    *)
+(* from_conn rebuilds a partial record for that version.                                              *)
+StaleV == IF KF_S2 THEN {v \in Merged : \E r \in seqRows : r.v = v} ELSE {}
 DropStale(a) == [a EXCEPT !.partial = {p \in @ : p.v \notin StaleV}]
 
 TypeOK == /\ max \in 0..MaxV /\ needed \subseteq V /\ dbv \in 0..MaxV
@@ -288,7 +300,15 @@ C02_RowsMatch == /\ gapRows = Runs(needed)
                  /\ \A v \in {r.v : r \in seqRows} : Cardinality({q \in seqRows : q.v = v}) >= 1
                  /\ \A q, r \in seqRows : (q.v = r.v /\ q # r) => (q.e + 1 < r.s \/ r.e + 1 < q.s)
 (* C02/C06: what from_conn rebuilds advertises the same sets *)
-C02_ReloadEq == DropStale(AdvReload) = DropStale(AdvMem)
+(* The head is rebuilt from crsql_db_versions and the seq rows, which an Empty changeset below the    *)
+(* current head does not advance: the rebuilt head may be lower, but only versions recorded as        *)
+(* cleared, or still needed, can be forgotten that way (they are simply asked for again).             *)
+C02_ReloadEq == LET r == DropStale(AdvReload) m == DropStale(AdvMem) IN
+    /\ r.partial = m.partial
+    /\ r.head <= m.head
+    /\ (r.need \cap (1..r.head)) = (m.need \cap (1..r.head))
+    \* what the rebuilt state advertises as held is durably held (C06)
+    /\ (((1..r.head) \ r.need) \ {p.v : p \in AdvReload.partial}) \subseteq DurablyHeld
 C02_NoErr == ~err
 (* a covered partial is either pending apply or applied (C03 in the small) *)
 CoveredIsPending == \A p \in partials : (PvCovered(p) /\ p.v \notin merged) => p.v \in pendApply
